@@ -3,7 +3,7 @@
      kind dial|das|sess|sess2   policy M|O|N   ssl 0|1   auth/host: hex   custom: - | plain0 | plain1 | login0 | cram | xoauth2
      nonoop 0|1   mute: - | n   caps/capstls: hex list   hs: ok|wrongname|untrusted|garbage|stall
      script: - | comma list of ok|drop|stall|<code>|<code>b|<code>e   msgs: - | comma list of recipient counts
-   output: <id> <results> closes=<n> open=<0|1> arm=<clear>|<tls> srv=<log>          (ssl = 0, in-memory transport)
+   output: <id> <results> closes=<n> open=<0|1> arm=<clear>|<tls> arms=<SetDeadline calls> spent=<deadlines waited out> srv=<log>          (ssl = 0, in-memory transport)
            <id> <results> ended=<0|1> srv=<log>                                       (ssl = 1, TCP transport)        *)
 open Util
 module M = Model
@@ -107,8 +107,8 @@ let rec run (toks : string list) : string =
       let ac = String.concat "" (List.map (fun a -> if a then "A" else "U") (M.arm_clear w.M.w_trace)) in
       let (ta, tu) = M.arm_tls w.M.w_trace in
       let at = (match ta, tu with false, false -> "-" | true, false -> "A" | false, true -> "U" | true, true -> "M") in
-      Printf.sprintf "%s closes=%d open=%d arm=%s|%s srv=%s" rs (int_of_nat (M.closes w))
-        (if w.M.w_conn.M.copen then 1 else 0) ac at srvs
+      Printf.sprintf "%s closes=%d open=%d arm=%s|%s arms=%d spent=%d srv=%s" rs (int_of_nat (M.closes w))
+        (if w.M.w_conn.M.copen then 1 else 0) ac at (int_of_nat w.M.w_clk.M.arms) (int_of_nat w.M.w_clk.M.spent) srvs
     end
   | k :: _ -> "UNKNOWN-KIND-" ^ k
   | [] -> "EMPTY"
